@@ -9,6 +9,7 @@ namespace
     struct TwinTraits
     {
         template <class T> using vec = igris::vector<T, trk::TrackAlloc<T>>;
+        template <class T> using vec_default = igris::vector<T>; // the header's own default allocator
         static constexpr const char *name = "portable_vector";
         static constexpr bool has_at = false, has_less = false, has_sorted = false, has_il = false, has_list_range = false, has_erase_range = TWIN_HAS_ERASE_RANGE;
     };
